@@ -1,14 +1,14 @@
 #!/bin/bash
 # usage: tools/seedprompt.sh <ID> <letters e.g. "a b">   — prints the prompt given to an independent
 # sub-agent (property text + scratch worktree only; nothing from /verif).
-id=$1; letters=${2:-a b}
+id=$1; letters=${2:-a b}; dir=${3:-/tmp/seed-$1}; avoid=${4:-}
 first=${letters%% *}; second=${letters##* }
 title=$(jq -r "select(.id==\"$id\")|.title" /verif/properties.jsonl)
 stmt=$(jq -r "select(.id==\"$id\")|.statement" /verif/properties.jsonl)
 cat <<P
 You are helping to evaluate a verification effort for the Go library tychoish/fun (module github.com/tychoish/fun, a zero-dependency generics utility library: iterators and worker pipelines, pubsub queue/deque/broker, linked lists, HDR histogram, service orchestration).
 
-You have your own scratch git worktree of the library at /tmp/seed-$id (detached HEAD). Work ONLY inside /tmp/seed-$id. Do NOT read, list or touch /verif or /repo or any other /tmp/seed-* directory. There is no network. Every shell command that runs go needs: export GOFLAGS=-mod=mod GOPROXY=off GOSUMDB=off GOTOOLCHAIN=local
+You have your own scratch git worktree of the library at $dir (detached HEAD). Work ONLY inside $dir. Do NOT read, list or touch /verif or /repo or any other /tmp/seed* directory. There is no network. Every shell command that runs go needs: export GOFLAGS=-mod=mod GOPROXY=off GOSUMDB=off GOTOOLCHAIN=local
 
 Here is a semantic property of the library that is supposed to hold:
 
@@ -24,9 +24,11 @@ Your task: produce TWO different, independent, realistic changes to the library'
 
 For each change also write a demonstration: a Go test file (package of the directory it goes in, functions named TestSeed${id}${first}... / TestSeed${id}${second}...) that PASSES on the unchanged tree and FAILS with the change. For schedule-dependent changes the demonstration may loop many rounds or use runtime.Gosched / small sleeps to provoke the interleaving, but it must fail reliably with the change (at least 3 out of 3 runs), pass reliably without it (3 out of 3), and finish in under 60 seconds; use timeouts so that it cannot hang.
 
-Verify all of this yourself by actually running the commands (unchanged tree: demo passes; with the change: build ok, full suite passes, demo fails). Use git apply / git checkout -- . to switch between the two trees.
+$avoid
 
-Deliver, for each change X in {$first, $second}, the directory /tmp/seed-$id/_seed/X/ containing:
+Verify all of this yourself by actually running the commands (unchanged tree: demo passes; with the change: build ok, full suite passes, demo fails). Use git apply / git checkout -- . to switch between the two trees. The machine is shared with other jobs: prefix go commands with GOMAXPROCS=4.
+
+Deliver, for each change X in {$first, $second}, the directory $dir/_seed/X/ containing:
   patch.diff    — output of 'git diff' for the change to non-test library files only (must apply with 'git apply' at the worktree root on the unchanged tree)
   demo_test.go  — the demonstration test file
   meta.json     — {"property":"$id","summary":"what was changed and which clause it breaks","needs_to_manifest":"what specific interleaving/sequence/input is needed","demo_dir":"directory (relative to the repo root) the demo test file must be copied into, e.g. pubsub","how_verified":"the exact commands you ran and what they printed"}
